@@ -293,8 +293,12 @@ class Builtins:
     def list_getitem(self, obj, key, st, k):
         cx = self.cx
         seq = st.heap[obj.oid].payload
-        if seq is None:
-            items = st.heap[obj.oid].meta.get("pyitems")
+        items = st.heap[obj.oid].meta.get("pyitems")
+        concrete_key = isinstance(key, VSlice) and all(
+            z3.is_true(z3.simplify(c.is_none)) or (z3.is_false(z3.simplify(c.is_none)) and z3.is_int_value(z3.simplify(c.t)))
+            for c in (key.start, key.stop, key.step))
+        if seq is None or (items is not None and concrete_key):
+            # a list whose items are known one by one (a literal): a constant slice of it is again such a list
             if items is not None and isinstance(key, VSlice):
                 def cst(c):
                     if z3.is_true(z3.simplify(c.is_none)):
